@@ -9,21 +9,21 @@ CH = "CrossHair symbolic execution (z3) of the real Python functions with symbol
 CHECKS = {
  "C01": ("translation_validation", "for every template of the union of all corpora (every verb kind, expression kind and two-table shape) z3 shows that the plan compiled for Polars and the SQL compiled for SQLite denote the same table (names, order, multiset; sequence where a final arrange with total keys fixes it) for every input table within the bounds; no reference semantics is compared, REF only supplies the definedness assumptions", "3 C01", TV, NOTE_E1, "E1"),
  "C02": ("translation_validation", "for every template of the row-level-verb corpus (compositions of select/drop/rename/mutate/filter/slice_head/group_by/alias) z3 shows that both compiled artefacts denote the same table as the reference semantics for every input table in the bounds; the LIMIT/OFFSET composition of chained slice_head is decided for ALL non-negative integers by CrossHair on the real SQL compiler (K1)", "3 C02", TV + "; " + CH, NOTE_E1, "E1"),
- "C03": ("translation_validation", "one template per element-wise operator x operand shape (incl. 4-5 operand varargs, reused sub-expressions, operators nested in case branches): z3 shows Polars plan = SQLite SQL = documented null-aware value for all operand values in the bounds (sign rules of // and %, Kleene logic, null propagation, horizontal min/max, is_in with nulls, case expressions)", "3 C03", TV, NOTE_E1, "E1"),
+ "C03": ("translation_validation", "one template per element-wise operator x operand shape (incl. 4-5 operand varargs, reused sub-expressions, operators nested in case branches): z3 shows Polars plan = SQLite SQL = documented null-aware value for all operand values in the bounds (sign rules of // and %, Kleene logic, null propagation, horizontal min/max, is_in with nulls, case expressions); the same for Date / Datetime operands (days / microseconds as integers over 1960..2099, calendar and time fields, SQLite comparing temporal values as text)", "3 C03", TV, NOTE_E1, "E1"),
  "C04": ("translation_validation", "summarize templates (0/1/2 grouping columns, computed and nullable keys, every aggregate, filter=, filter before/after, expressions over aggregates, after slice_head/alias): z3 shows both artefacts equal the reference (one row per present key combination, exactly one row when ungrouped, nulls ignored, null for all-null groups, HAVING vs WHERE) for all tables in the bounds", "3 C04", TV, NOTE_E1, "E1"),
  "C05": ("translation_validation", "arrange with every marker combination and window functions with every partition/order specification, in every position relative to filter/slice_head/select/rename/alias: z3 shows sequence / per-row equality with the reference for all tables in the bounds (order keys total, null positions only where a marker fixes them)", "3 C05", TV, NOTE_E1, "E1"),
  "C06": ("translation_validation", "join templates (inner/left/full/cross; equality, conjunction, inequality, expression predicates; filters/mutates/renames/aliases on either side; hidden and colliding names): z3 shows the exact multiset of row combinations incl. null padding equals the reference for all pairs of tables in the bounds; names per the documented suffix rule and reachability of hidden columns via probe columns", "3 C06", TV, NOTE_E1, "E1"),
- "C07": ("translation_validation", "union templates (permuted columns, hidden/overwritten columns, distinct / all, chained, verbs before and after): z3 shows by-name alignment and multiplicities equal the reference for all pairs of tables in the bounds", "3 C07", TV, NOTE_E1, "E1"),
+ "C07": ("translation_validation", "union templates (permuted columns, hidden/overwritten columns, distinct / all, chained, verbs before and after): z3 shows by-name alignment and multiplicities equal the reference for all pairs of tables in the bounds; unions of tables whose visible names differ are rejected when built (8 clauses x 2 backends, evaluated)", "3 C07", TV, NOTE_E1, "E1"),
  "C08": ("translation_validation", "every order of the verb kinds filter / element-wise, window and aggregate mutate / grouped and ungrouped summarize / slice_head / arrange / join of length <= 2 (48 rotating of length 3; all in thorough) with and without alias() at every position: whenever SQLite accepts the pipeline z3 shows its SQL equals the Polars plan and the reference for all tables in the bounds; acceptance clauses (alias repairs SubqueryError, never-needs class, Polars never raises) evaluated per sequence on the real library; K1 for the limit/offset composition", "3 C08", TV, NOTE_E1 + " The acceptance clauses have no value quantifier (exception behaviour only).", "E1"),
  "C09": ("translation_validation", "probe templates: after every history (rename, swaps, rename onto hidden names, select/drop, overwrite and re-create, arrange, filter, joins with suffixing, alias(keep_col_refs=True), references from intermediate tables) a probe column built from the OLD reference is shown by z3 to carry the originally referenced data on both backends for all data; derived[ref].name and the rejection clauses are compared with REF per template", "3 C09", TV, NOTE_E1 + " Names and exception types have no value quantifier.", "E1"),
  "C10": ("translation_validation", "pairs (pipeline built from SHARED expression / table objects, same pipeline built from fresh objects): z3 shows the compiled artefacts of the shared version equal REF of the pipeline as written and the artefacts of the fresh version, per backend, for all data - one aggregate/window expression under two groupings and in mutate+summarize, C-expressions and case expressions reused, tables reused after export/build_query and after pipelines derived from them", "3 C10", TV, NOTE_E1, "E1"),
  "C11": ("exploration", "part 1: for every verb history of the corpora the metadata accessors (columns(), iteration, len, in, dir, []) equal the names and order of the compiled select list on both backends; part 2: CrossHair executes the real verbs / Cache.update / Cache.from_ast / polars.compile_ast with SYMBOLIC column names and selections and confirms over all paths that incremental metadata = recomputed metadata = compiled select list", "3 C11", CH + "; bounded enumeration of verb histories for the structural part", "no table value occurs in this property; the solver chooses names (1 character quick / 2 thorough over a 5-letter alphabet) and selections; the rest is bounded enumeration", "E2"),
- "C12": ("exploration", "per template of the union corpus: schema of the compiled Polars plan equals the static dtypes exactly (Polars' schema inference as oracle); static storage kind of every SQLite output expression as tracked by SEM_sqlite lies in the family of the static dtype; on random concrete tables the exported schemas, Table(exported) and collect() reproduce the types", "3 C12", "static typing of the compiled artefacts (SEM_sqlite kinds, Polars collect_schema) per enumerated program; no solver query decides this property", "types are a per-program property: no value quantifier for the Polars part; re-import / collect run natively on sampled tables", "E1"),
- "C13": ("other", "z3 decides for ALL argument-type tuples over the 50-element type universe (arity as declared, varargs unrolled to 4) that no operator has an ambiguous best overload (the internal assertion), that sized int/float/decimal types are accepted wherever the generic one is with a result of the same family, that constants are accepted wherever columns are and that const parameters reject columns; relations are read by calling the real converts_to/conversion_cost/implicit_conversions, the matching rule is validated exhaustively against the real trie on all unary and binary tuples; CrossHair confirms the arg-min kernel (K5) and the Decimal(p,s)/String(n) families (K6)", "2.3, 3 C13", "z3 over finite relations read from the live type lattice and overload tries; " + CH, "finite type universe; the symbolic matcher is a reference model of SignatureTrie.all_matches (exhaustively validated for arity <= 2)", "E3"),
+ "C12": ("exploration", "per template of the union corpus: schema of the compiled Polars plan equals the static dtypes exactly (Polars' schema inference as oracle); kind of every SQLite output expression as tracked by SEM_sqlite and passed through the SQLAlchemy result processor of the real Select (no Boolean / Date / DateTime processor = raw integer / text) equals the family of the static dtype; on random concrete tables the exported schemas, Table(exported) and collect() reproduce the types", "3 C12", "static typing of the compiled artefacts (SEM_sqlite kinds, Polars collect_schema) per enumerated program; no solver query decides this property", "types are a per-program property: no value quantifier for the Polars part; re-import / collect run natively on sampled tables", "E1"),
+ "C13": ("other", "z3 decides for ALL argument-type tuples over the 50-element type universe (arity as declared, varargs unrolled to 4) that no operator has an ambiguous best overload (the internal assertion), that sized int/float/decimal types are accepted wherever the generic one is with a result of the same family, that constants are accepted wherever columns are and that const parameters reject columns; relations are read by calling the real converts_to/conversion_cost/implicit_conversions, the matching rule is validated exhaustively against the real trie on all unary and binary tuples; CrossHair confirms the arg-min kernel (K5) and the Decimal(p,s)/String(n) families (K6); const-ness of typed constants (lit(v, T), casts of constants) and their acceptance in const-declared parameters is evaluated on the real ColFn.dtype() (operator x position x constant form)", "2.3, 3 C13", "z3 over finite relations read from the live type lattice and overload tries; " + CH, "finite type universe; the symbolic matcher is a reference model of SignatureTrie.all_matches (exhaustively validated for arity <= 2)", "E3"),
  "C14": ("exploration", "every rejection rule x syntactic position x preceding history on Polars- and SQLite-backed tables: documented exception type, identical on both backends, input table still usable; CrossHair (K4) runs the real rename / join-suffix code with symbolic names and confirms: well-formed table or the documented ValueError, never a silently lost column", "3 C14", CH + " for the name rules; bounded enumeration for the other rules", "the quantifier of this property is the program only; the solver decides the string part", "E2"),
  "C15": ("translation_validation", "each documented equivalence is instantiated, both sides are compiled by the real code and z3 shows SEM(side A) = SEM(side B) per backend for all data (artefact vs artefact), plus side A vs REF; chained slice_head vs combined slice additionally for all integers (K1)", "3 C15", TV + "; " + CH, NOTE_E1, "E1"),
  "C16": ("translation_validation", "SEM(P >> alias()) = SEM(P), likewise alias(keep_col_refs=True), collect() (two-stage: the collected frame is bound to the symbolic result of stage 1) and transfer_col_references, for 9 base pipelines; old/new references after re-rooting, grouping across alias/collect, self-joins of derived tables vs REF; all for every input table in the bounds", "3 C16", TV, NOTE_E1 + " collect() itself executes natively on dummy data; what is decided is the bookkeeping around it.", "E1"),
- "C17": ("translation_validation", "cast templates (float->int truncation, bool->int/float, int->float, int->string, string->int on plain numerals, nulls, casts nested in case/filter/group keys): z3 shows both artefacts equal the documented value for all data in the bounds; the acceptance relation of Cast over the type universe is compared with the documented table", "3 C17", TV, NOTE_E1 + " float->string, date/datetime casts and overflow are outside.", "E1"),
+ "C17": ("translation_validation", "cast templates (float->int truncation, bool->int/float, int->float, int->string, string->int on plain numerals, Datetime->Date, Date->Datetime, Date/Datetime->String incl. frames with millisecond / nanosecond unit and constant sources, nulls, casts nested in case/filter/group keys/comparisons): z3 shows both artefacts equal the documented value for all data in the bounds; the acceptance relation of Cast over the type universe is compared with the documented table", "3 C17", TV, NOTE_E1 + " float->string, date/datetime casts and overflow are outside.", "E1"),
  "C18": ("translation_validation", "column data are symbolic z3 strings over printable ASCII + 'e-acute' + newline; the literal ranges over all strings of length 1 (quick: + selected pairs; thorough: all pairs) over the SQL/LIKE metacharacter alphabet in 14 literal-taking positions: z3 shows SEM_sqlite(sql) = SEM_polars(plan) = REF for all column strings (LIKE patterns become regular expressions); the SQL text must tokenise to the same statement shape as with a harmless literal", "3 C18", TV + " with z3 strings / regular expressions", NOTE_E1, "E1"),
  "C19": ("other", "z3 decides over all accepted argument-type tuples that the implementation tries of every backend class are unambiguous; the real get_impl is called exhaustively for arity <= 2 and the selected implementation applied to dummy columns must return a value; CrossHair (K2) on integer-parameter implementations; every corpus template is built against offline PostgreSQL / SQL Server / SQLite engines: one SELECT or NotSupportedError/SubqueryError, same text twice", "3 C19", "z3 over implementation tries; " + CH + "; per-program compilation on offline dialect engines", "non-SQLite SQL is generated, never executed or modelled", "E3"),
  "C20": ("translation_validation", "ColExpr.export: the table synthesised by get_expr_as_table equals the expression as one column over its ancestor table (z3, both backends, all data); target dispatch of export (Scalar/Dict guards, every target a projection of the same frame) confirmed over all paths by CrossHair (K8) with a contract stub for the frame; Pandas/dict/scalar/re-import agreement compared on random concrete tables", "3 C20", TV + "; " + CH, NOTE_E1 + " conversions to pandas / dict / scalar are native code: compared on sampled tables only.", "E1"),
